@@ -14,6 +14,7 @@ C07 — model of the Slepian-taper machinery of `nitime.utils` (core Lean only).
 -/
 import Nitime.Model.TridiBase
 import Nitime.Model.Proto
+import Nitime.Model.C07Hist
 
 namespace Nitime.C07
 open Nitime Nitime.Tridi
@@ -211,6 +212,7 @@ def b2s (b : Bool) : String := if b then "1" else "0"
 open Proto in
 def handle (args : List String) : String :=
   match args with
+  | "hist" :: rest => (Nitime.C07.Hist.handleHist rest).getD "bad-args"
   | ["tridif", d, e, b] =>
     match parseFloatList? d, parseFloatList? e, parseFloatList? b with
     | some d, some e, some b =>
